@@ -1988,3 +1988,66 @@ func init() {
 		},
 	}
 }
+
+func init() {
+	props["C18"] = &propDef{
+		ID: "C18",
+		Anchored: []string{"borrowDense", "ReturnTensor", "BorrowInts", "ReturnInts", "borrowHeader", "returnHeader", "BorrowBools", "borrowOpOpt", "returnOpOpt", "scalarPool", "allocScalar", "freeScalar",
+			"StdEng).Dot", "StdEng).MatMul", "StdEng).MatVecMul", "StdEng).Inner", "StdEng).Outer", ").UT", ").T", ").Clone", ").Materialize", ").Slice", ").At", "whichblas"},
+		Bounds: map[string]interface{}{
+			"reduction": "one goroutine's program (one read-only operation of the menu) is executed symbolically after a barrier; every object that exists at the barrier and is reachable from the shared operands or from a package global is shared. Obligations (at the access, over every feasible path, elements symbolic): no store into a shared operand (not even a temporary one); no store into library-global state outside a mutex; across the menu, nothing read outside a mutex is written by any menu operation. Races are pairwise and need a write, so these three facts exclude a race between any number of goroutines running menu operations on shared read-only operands and private tensors, and with no shared location written each goroutine computes its sequential result.",
+			"menu":      "At, Slice, Slice+At, iteration, Add, AddScalar, Mul, Gt, ElEq(as same type), Neg, Sqrt, Sum (all / axis), Max, Argmax, Argmin(all), MatMul, MatVecMul, Inner, Outer, Dot (mm, mv, vm, vv), TensorMul, Clone, Materialize, SafeT, Transpose/T (api, copying), Concat, Stack, Repeat, Reshape of a clone, Apply, Eq, CopyTo/Copy into a private tensor",
+			"operands":  "float64, shapes <= (2,3)/(3,2), first operand C / lazily transposed / sliced view, second operand C / transposed / sliced",
+			"atomic_by_contract": "sync.Pool Get/Put, channel send/receive/select, sync.Mutex - the executor's intrinsics; their internals and the Go memory model are trusted",
+			"native_confirmation": "a counterexample is replayed as 4 goroutines x 25 runs of the operation over the same operands under the race detector (go test -race); only a reported DATA RACE counts",
+			"outside":   "programs of more than one operation per goroutine and objects retained after being handed to a pool (C19 decides the bounded histories), GOMAXPROCS / scheduler effects (the claim is schedule-independent by construction), formatting (fmt), BLAS implementations other than the default gonum one (blas.Use)",
+		},
+		Assume: []string{"an object taken from a pool was not retained by whoever put it there (C19)", "package initialisers have completed before goroutines start"},
+		Instances: func(tier string, seed int64) []Instance {
+			var out []Instance
+			ops := []string{"At", "Slice", "SliceAt", "Iterate", "Add", "AddScalar", "Mul", "Gt", "ElEq", "Neg", "Sqrt", "Sum", "Sum0", "Max1", "Argmax", "ArgminAll", "MatMul", "MatVecMul", "Inner", "Outer",
+				"Dot-mm", "Dot-mv", "Dot-vm", "Dot-vv", "TensorMul", "Clone", "Materialize", "SafeT", "Transpose-api", "T-api", "Concat", "Stack", "Repeat", "Reshape-clone", "Apply", "Eq", "CopyTo", "Copy-api"}
+			ringOps := map[string]bool{"Sum": true, "Sum0": true, "MatMul": true, "MatVecMul": true, "Inner": true, "Outer": true, "Dot-mm": true, "Dot-mv": true, "Dot-vm": true, "Dot-vv": true, "TensorMul": true}
+			lays := []string{"C", "T", "S"}
+			n := 0
+			for _, op := range ops {
+				for li, la := range lays {
+					for lj, lb := range lays {
+						sa, sb := c18Shapes(op)
+						if !layoutOK(sa, la) || !layoutOK(sb, lb) || (la == "T" && len(sa) < 2) || (lb == "T" && len(sb) < 2) {
+							continue
+						}
+						n++
+						if tier != "thorough" && li != 0 && lj != 0 && n%2 == 0 {
+							continue
+						}
+						cfg := map[string]interface{}{"op": op, "la": la, "lb": lb}
+						if op == "Dot-vm" {
+							cfg["kf"], cfg["kf_label"] = "KF-C18-dot-vm", "shared:1"
+						}
+						in := mkInst("vhC18Op", cfg, "op", "la", "lb")
+						in.Ring = ringOps[op]
+						out = append(out, in)
+					}
+				}
+			}
+			return out
+		},
+	}
+}
+
+func c18Shapes(op string) (sa, sb []int) {
+	switch op {
+	case "MatMul", "Dot-mm", "TensorMul":
+		return []int{2, 3}, []int{3, 2}
+	case "MatVecMul", "Dot-mv":
+		return []int{2, 3}, []int{3}
+	case "Dot-vm":
+		return []int{2}, []int{2, 3}
+	case "Inner", "Dot-vv":
+		return []int{3}, []int{3}
+	case "Outer":
+		return []int{2}, []int{3}
+	}
+	return []int{2, 3}, []int{2, 3}
+}
